@@ -28,14 +28,16 @@ def runCase (prop : String) (lines : List String) : String × Bool × Bool :=
   let n := match lines.head? with
     | some l => ((l.splitOn " ").getD 1 "0")
     | none => "0"
-  -- K: first variant that replays without mismatch
-  let results := variants.map (fun (name, link, leak, fin) => (name, replay lines link leak fin))
-  let okv := results.find? (fun r => r.2.bad.isNone)
-  let (kOk, vname, st) := match okv with
+  -- K: first variant that replays without mismatch (later variants are only tried on mismatch)
+  let rec firstOk (vs : List (String × Cfg × Bool × Bool)) : Option (String × RState) :=
+    match vs with
+    | [] => none
+    | (name, link, leak, fin) :: rest =>
+      let st := replay lines link leak fin
+      if st.bad.isNone then some (name, st) else firstOk rest
+  let (kOk, vname, st) := match firstOk variants with
     | some (name, st) => (true, name, st)
-    | none => match results.head? with
-      | some (name, st) => (false, name, st)
-      | none => (false, "-", { w := {} })
+    | none => (false, "faithful", replay lines Cfg.faithful false false)
   let (lineNo, kdetail) := match st.bad with | some (ln, d) => (ln, d) | none => (0, "")
   let o := oracle prop lines
   let cov := ",".intercalate (st.w.cov.reverse ++ o.cov)
